@@ -277,7 +277,7 @@ Print Assumptions html_template_rawtext_converse.
    html_template_atomic (text), html_template_atomic_attr_partial / _attr_value_partial (attributes),
    html_template_atomic_rawtext_partial (raw text), html_template_atomic_comment (comments); for doctype, CDATA, bogus
    comments, end tags and svg / math / xml it is covered by the witnesses and the Go oracle.  Positions at which the lexer does not look:
-   plaintext content (finding c09-template:plaintext, next theorem); the letters it jumps over after '<' or "</" in
+   the letters it jumps over after '<' or "</" in
    raw text, script "<!--" sections and svg / math content; the bytes of "<!--", "<![CDATA[", "<?" and of the
    terminators "-->", "]]>", "?>" it moves over at once; whitespace, '=' and the closers '>' "/>" inside a tag;
    the first two bytes of "</", "<!", "<?" and the first letter of a tag name. *)
@@ -301,14 +301,26 @@ Theorem html_template_atomic_comment :
 Proof. exact html_template_comment_proof. Qed.
 Print Assumptions html_template_atomic_comment.
 
-(* C09 refuted — plaintext is the one context in which the lexer does not look for delimiters: <plaintext>a{{x}}b
-   gives the Text token "a{{x}}b" with HasTemplate() = false although it contains the region {{x}} (the region is
-   not split: the token runs to the end of input).  Finding c09-template:plaintext. *)
-Theorem html_template_plaintext_refuted :
-  let d := [60;112;108;97;105;110;116;101;120;116;62;97;123;123;120;125;125;98] in
-  is_region go_tmpl d 12 17 /\
-  exists tr, run go_tmpl 3 (new_lexer d) = Ok tr /\
-    map (fun r => (fst (fst r), snd (fst r), lhas (snd r))) tr =
-      [(StartTagT, Some (mkSl 0 10), false); (StartTagCloseT, Some (mkSl 10 1), false); (TextT, Some (mkSl 11 7), false)].
-Proof. exact html_template_plaintext_refuted_proof. Qed.
-Print Assumptions html_template_plaintext_refuted.
+(* C09 — templates, both halves in ONE statement (the property's last sentence: "a delimited region is never split
+   across tokens and HasTemplate() is true exactly for tokens that contain one"), for every delimiter pair, every input
+   and every state:
+   (1) if a region [p,q) starts at a position p at which the call looks for a delimiter (TemplateAll.looked: in text;
+       after whitespace and attribute-name bytes; at the start of an attribute value or inside a quoted value; in raw
+       text reached over plain bytes, regions and non-matching "</"+letters; in a comment, CDATA section, doctype, bogus
+       comment "<?…" / "<!…" or end tag, after bytes that are neither a delimiter start nor the construct's terminator),
+       then the call returns ONE token that starts at or before p, contains the whole region and has HasTemplate() = true;
+   (2) if the returned token has HasTemplate() = true, then a region lies inside the bytes the call consumed.
+   Positions at which the lexer does not look (so (1) does not apply): the letters it jumps over after '<' or "</" in
+   raw text, script "<!--" sections and svg / math content; the bytes of "<!--", "<![CDATA[", "<?" and of the terminators
+   "-->", "]]>", "?>"; the blank after "<!doctype"; whitespace, '=' and the closers inside a tag; the first two bytes of
+   "</", "<!", "<?" and the first letter of a tag name.  Not in [looked] although the lexer looks there: positions
+   inside svg / math / xml content, plaintext content and bogus comments "</"+non-letter (covered by (2), by
+   html_template_elsewhere_fixed_witnesses and by the Go oracle). *)
+Theorem html_template_exact :
+  forall c d l, cfg_ok c -> tb c <> [] -> html_inv d l ->
+    (forall p q, looked c d l p -> is_region c d p q ->
+       exists ty v l', next c l = Ok (ty, Some v, l') /\ lhas l' = true /\ so v <= p /\ q <= so v + sn v) /\
+    (forall ty tk l', next c l = Ok (ty, tk, l') -> lhas l' = true ->
+       exists p q, lpos (lz l) <= p /\ q <= lpos (lz l') /\ is_region c d p q).
+Proof. exact html_template_exact_proof. Qed.
+Print Assumptions html_template_exact.
